@@ -164,6 +164,30 @@ def hold_failures(binp):
             fr = d.get("fresh")
             if fr and classify(fr)[0] != "admitted":
                 why.append("after the holder ended with %s and returned, a fresh call was not admitted" % d["outcome"])
+        elif d["scenario"] == "handles":
+            what = "a chain of %d wrappers (h0 = NewIsolatedJob(job), h1 = NewIsolatedJob(h0), ...)" % d["depth"]
+            if d.get("error"):
+                why.append(d["error"])
+            if d.get("blocked"):
+                why.append("a call made while an execution was in progress blocked instead of failing fast")
+            h = d.get("holder")
+            if h and classify(h)[0] != "admitted":
+                why.append("holder: %s" % (classify(h)[1],))
+            for c in d.get("during") or []:
+                if classify(c)[0] != "rejected":
+                    why.append("%s: while an execution admitted through h%d was inside the underlying job, a call through %s was not rejected "
+                               "(%s): %s" % (what, d["holder_handle"], c.get("handle"),
+                                             "it ran the job as well" if c["entered"] else classify(c)[1], json.dumps(c)))
+                    break
+            if not d.get("blocked") and not d.get("error") and len(d.get("during") or []) != 4 * d["depth"]:
+                why.append("expected %d calls during the hold" % (4 * d["depth"]))
+            for c in d.get("fresh") or []:
+                if classify(c)[0] != "admitted":
+                    why.append("%s: after the holder (through h%d, outcome %s) had returned, a call through %s was not admitted: %s" % (
+                        what, d["holder_handle"], d["outcome"], c.get("handle"), classify(c)[1] or classify(c)[0]))
+                    break
+            if not d.get("blocked") and not d.get("error") and len(d.get("fresh") or []) != d["depth"]:
+                why.append("expected a fresh call through each of the %d handles" % d["depth"])
         else:
             # sequential / chained: every call is made after the previous one returned, so nothing is in progress
             for n, c in enumerate(d["calls"]):
@@ -176,10 +200,17 @@ def hold_failures(binp):
         if d.get("max_inflight", 1) > 1:
             why.append("in-flight counter reached %d" % d["max_inflight"])
         if why:
-            fails.append({"case": {"kind": "hold", "scenario": d["scenario"], "outcome": d.get("outcome")}, "why": why,
-                          "how": "jobsh isolated hold: deterministic scenario (holder blocked inside the job / sequential outcome series)"})
-    if len(recs) != 6:
-        fails.append({"case": {"kind": "hold"}, "why": ["expected 6 scenario records, got %d" % len(recs)], "detail": out[-800:]})
+            case = {"kind": "hold", "scenario": d["scenario"], "outcome": d.get("outcome")}
+            how = "jobsh isolated hold: deterministic scenario (holder blocked inside the job / sequential outcome series)"
+            if d["scenario"] == "handles":
+                case.update({"depth": d["depth"], "holder_handle": d["holder_handle"], "max_inflight": d.get("max_inflight"),
+                             "holder": d.get("holder"), "during": d.get("during"), "fresh": d.get("fresh")})
+                how = ("jobsh isolated hold, scenario `handles`: an isolated job wrapped a second (third) time, every handle of the chain in use; "
+                       "the holder is blocked inside the underlying job through one handle, then 4 calls go through each handle in turn "
+                       "(20 s watchdog each), the holder is released, then one call goes through each handle")
+            fails.append({"case": case, "why": why, "how": how})
+    if len(recs) != 11:
+        fails.append({"case": {"kind": "hold"}, "why": ["expected 11 scenario records, got %d" % len(recs)], "detail": out[-800:]})
     return fails, recs
 
 
@@ -357,7 +388,8 @@ def run(ctx):
                 "pairwise disjoint, every rejected call overlaps an admitted call, a fresh call after quiescence is admitted, outcomes "
                 "not judged for admitted calls. non-trivial = admitted executions (each is followed by a release the next admission depends on). hold: holder "
                 "blocked inside the job, 50 calls rejected, gate reopens after ok/error/panic; sequential series (incl. already cancelled / expired "
-                "contexts and an underlying job that ends with another busy isolated job's fail-fast error, plain and wrapped) and chained / "
+                "contexts and an underlying job that ends with another busy isolated job's fail-fast error, plain and wrapped), an isolated job wrapped a second and third time with calls through every handle of the chain while one "
+                "execution is in flight, and chained / "
                 "nested isolated jobs all admitted. sched: "
                 "real scheduler, 4 ms trigger, 25 ms job. model tie: complete small histories linearised and replayed in Coq.",
         "samples": stress_info[:3] + tie_info[:1],
